@@ -103,7 +103,7 @@ public:
 		return base_allocator_type(mMemPool->GetMemManager().GetByteAllocator());
 	}
 
-	unsynchronized_pool_allocator select_on_container_copy_construction() const noexcept
+	unsynchronized_pool_allocator select_on_container_copy_construction() const
 	{
 		return unsynchronized_pool_allocator(get_base_allocator());
 	}
